@@ -207,7 +207,14 @@ def correspondence(n_docs: int, seed: int):
         text = g.doc() if r < 0.6 else (g.deep() if r < 0.75 else c01gen.mutate(rng, g.doc()))
         text = "".join(c for c in text if not 0xD800 <= ord(c) <= 0xDFFF)
         case = {"text": text, "domain": rng.choice([None, None, "mongodb", "std"]), "mode": rng.choice(["page"] * 5 + ["block", "inline", "inline"])}
-        out = record(case)
+        # in a child that can be killed: a parse that never comes back (totality is the business of the doc cases) must not take
+        # the whole check with it
+        ok, out = core.isolated_call(record, case, 40.0)
+        if not ok:
+            out = {"exc": "killed: no answer within 40 s", "walks": []}
+            stats["parse_killed"] = stats.get("parse_killed", 0) + 1
+            if stats["parse_killed"] >= 3:
+                break
         stats["documents"] += 1
         if out["exc"]:
             stats["parse_raised"] += 1   # totality is the business of the doc cases; the walks recorded so far are still compared
